@@ -33,7 +33,9 @@ def gen_case(rs, tier):
     cfg["nested_derived"] = False
     cfg["else_level"] = False
     facs = [gencomb._basic(i, rng.choice([2, 2, 3])) for i in range(2)]
-    if rng.random() < 0.3:
+    if rng.random() < 0.45:
+        facs = facs[:1]        # without the uncrossed factor the solution set stays small enough for 3 repetitions
+    elif rng.random() < 0.3:
         for lv in facs[1]["levels"]:          # the uncrossed factor may carry weights (it is desugared by the block)
             lv[1] = rng.choice([1, 2])
     preamble = rng.random() < 0.35
@@ -82,7 +84,7 @@ def key(e):
 
 def run_case(case):
     ast = case["design"]
-    cap = 150 if case.get("tier") != "thorough" else 3000
+    cap = 400 if case.get("tier") != "thorough" else 3000
     m = refsem.elaborate(ast)
     if m.status == "rejected":
         return {"outcome": "skip", "reason": "ref-rejected"}
